@@ -38,6 +38,10 @@ func findAlias(v reflect.Value, lo, hi uintptr, depth int) string {
 			}
 			return ""
 		}
+		// the backing array of any slice (a decoder may point a []float64 / []int32 ... straight at the input)
+		if sz := int(v.Type().Elem().Size()); v.Cap() > 0 && sz > 0 && in(v.Pointer(), v.Cap()*sz) {
+			return fmt.Sprintf("backing array of a %s (len %d cap %d)", v.Type(), v.Len(), v.Cap())
+		}
 		for i := 0; i < v.Len(); i++ {
 			if m := findAlias(v.Index(i), lo, hi, depth+1); m != "" {
 				return m
@@ -202,7 +206,90 @@ func runC11(c *Ctx) {
 		c.add(fmt.Sprintf("KMarshal %s %s %s false %s", tc.head(fuel), coqVal(v), coqBytes(prefix), coqBytes(saved)), desc, shapeClass(tc.T, 3)+"/"+tc.Cfg.String(), hasContainerAndNonZero(v))
 		c.count("kind_" + tc.T.Kind().String())
 	}
+	runC11Vectors(c)
 	runC11History(c)
+}
+
+// long scalar vectors behind paddings of every length: a decoder that avoids copying packed
+// elements when the payload is big enough and suitably aligned shares memory with the input
+type Vectors struct {
+	Pad string    `plenc:"1"`
+	F   []float64 `plenc:"2"`
+	G   []float32 `plenc:"3"`
+	I   []int64   `plenc:"4"`
+	U   []uint32  `plenc:"5"`
+	B   []bool    `plenc:"6"`
+}
+
+func runC11Vectors(c *Ctx) {
+	n := scale(c, 40, 600)
+	for i := 0; i < n; i++ {
+		cfg := protoCfgs[c.rng.Intn(len(protoCfgs))]
+		p := newInstance(cfg)
+		var v Vectors
+		v.Pad = string(randBytes(c.rng, i%17))
+		ln := []int{16, 17, 31, 32, 33, 64, 100, 200}[c.rng.Intn(8)]
+		for k := 0; k < ln; k++ {
+			v.F = append(v.F, float64(k)+0.5)
+			v.G = append(v.G, float32(k)+0.25)
+			v.I = append(v.I, int64(k)<<40)
+			v.U = append(v.U, uint32(k)*1000003)
+			v.B = append(v.B, k%3 == 0)
+		}
+		switch c.rng.Intn(4) { // one vector alone, so that it starts right after the padding
+		case 0:
+			v.G, v.I, v.U, v.B = nil, nil, nil, nil
+		case 1:
+			v.F, v.I, v.U, v.B = nil, nil, nil, nil
+		case 2:
+			v.F, v.G = nil, nil
+		}
+		data, err := p.Marshal(nil, &v)
+		if err != nil {
+			c.native = append(c.native, NativeViolation{Case: "vectors", What: err.Error(), Class: "marshal-fails"})
+			continue
+		}
+		for _, top := range []bool{false, true} {
+			var in []byte
+			var target reflect.Value
+			desc := fmt.Sprintf("vectors cfg=%s pad=%d len=%d top=%v", cfg, len(v.Pad), ln, top)
+			if top {
+				// a top-level vector: the payload starts at the first byte of the input
+				if len(v.F) == 0 {
+					continue
+				}
+				d, err := p.Marshal(nil, &v.F)
+				if err != nil {
+					continue
+				}
+				in = append(make([]byte, 0, len(d)+8), d...)
+				target = reflect.New(reflect.TypeOf(v.F))
+			} else {
+				in = append(make([]byte, 0, len(data)+8), data...)
+				target = reflect.New(reflect.TypeOf(v))
+			}
+			orig := string(in)
+			if r := safely(func() error { return p.Unmarshal(in, target.Interface()) }); r.panicked || r.err != nil {
+				c.native = append(c.native, NativeViolation{Case: desc, What: fmt.Sprintf("Unmarshal failed: %v %v", r.msg, r.err), Class: "unmarshal-of-marshal-fails"})
+				continue
+			}
+			if string(in) != orig {
+				c.native = append(c.native, NativeViolation{Case: desc, What: "Unmarshal modified the input bytes", Class: "unmarshal-modifies-input"})
+			}
+			lo, hi := rangeOf(in)
+			if m := findAlias(target.Elem(), lo, hi, 0); m != "" {
+				c.native = append(c.native, NativeViolation{Case: desc + fmt.Sprintf(" data=%x", trunc(orig, 60)), What: "decoded value points into the input buffer: " + m, Class: "decoded-aliases-input"})
+			}
+			snap := fmt.Sprintf("%v", target.Elem().Interface())
+			for j := range in[:cap(in)] {
+				in[:cap(in)][j] = 0xEE
+			}
+			if fmt.Sprintf("%v", target.Elem().Interface()) != snap {
+				c.native = append(c.native, NativeViolation{Case: desc, What: "overwriting the input buffer changed the decoded vectors", Class: "decoded-aliases-input"})
+			}
+			c.count("vector_decodes")
+		}
+	}
 }
 
 // present-but-empty byte slices and strings (only written behind a pointer, as a
